@@ -106,6 +106,7 @@ loop:
 				skipped++
 			}
 			verifEvent("insert.processed", t.Name, read.source)
+			verifCountProcessed(t)
 			t.db.walBuffers.Put(read.data)
 			delta := time.Now().Sub(start)
 			if delta > 1*time.Minute {
